@@ -489,6 +489,19 @@ def f_access(rng, sid):
         sc.cmd(_numcmd(rng, sc, types=(0, 1, 2, 3, 4), accs=(0, 1, 2), name=b"+A%d" % k))
     for c in sc.cmds:
         c.h = rng.choice(["", "", "r", "w"])
+    if rng.random() < 0.5:
+        # read-only focus: the leading variables are read-only and their storage holds no zero
+        # byte, so that any store into it (even a terminator) is visible
+        for c in sc.cmds:
+            c.need_all = False
+            for v in c.vars[:rng.randint(1, len(c.vars))]:
+                v.acc = 1
+        shared = set(v.slot for c in sc.cmds for v in c.vars if v.acc != 1)
+        for c in sc.cmds:
+            for v in c.vars:
+                if v.acc == 1 and v.slot not in shared:
+                    ln = sc.slots[v.slot][0]
+                    sc.slots[v.slot] = (ln, bytes(rng.choice(b"KEPMQ\x7f\xff\x01") for _ in range(ln)))
     for _ in range(rng.randint(4, 12)):
         c = rng.choice(sc.cmds)
         if rng.random() < 0.4:
